@@ -577,6 +577,25 @@ func (a *A) ruleClauseTerminators() int {
 			}
 		}
 	})
+	// … and the clause parsers listed as method values (`[...]func(*SelectStatement) error{p.parseWhere, …}`, run by
+	// a loop over the list): listed in the order they are written
+	allInstrs(parse, func(in ssa.Instruction) {
+		mc, ok := in.(*ssa.MakeClosure)
+		if !ok {
+			return
+		}
+		w, _ := mc.Fn.(*ssa.Function)
+		if w == nil || !strings.HasPrefix(w.Synthetic, "bound method wrapper") {
+			return
+		}
+		obj, _ := w.Object().(*types.Func)
+		if obj == nil {
+			return
+		}
+		if f := a.Prog.FuncValue(obj); f != nil && a.fnInModule(f) && strings.HasPrefix(f.Name(), "parse") && f.Signature.Recv() != nil {
+			order = append(order, cl{f, in.Pos()})
+		}
+	})
 	sort.Slice(order, func(i, j int) bool { return order[i].pos < order[j].pos })
 	// token constants a function compares a token type with
 	compared := func(fn *ssa.Function) map[string]bool {
